@@ -28,6 +28,18 @@ func (X *Exec) execInstr(fr *Frame, ins ssa.Instruction, st *State) {
 		addr := X.addrOf(fr, st, X.val(fr, i.Addr), i.Pos(), "store to "+i.Addr.Name())
 		v := X.val(fr, i.Val)
 		X.checkGuarded(fr, st, addr, true, i.Pos())
+		if addr.Kind == AddrCell && len(addr.Path) == 0 {
+			// a pointer variable holding a Go-side address keeps it (parameters are spilled to cells in NaiveForm)
+			if v.T == nil && v.A != nil {
+				if st.CellAddr == nil {
+					st.CellAddr = map[*Cell]*Addr{}
+				}
+				st.CellAddr[addr.Cell] = v.A
+				st.Cells[addr.Cell] = X.zero(addr.Cell.Type)
+				return
+			}
+			delete(st.CellAddr, addr.Cell)
+		}
 		X.store(st, addr, X.asTerm(st, v, deref(i.Addr.Type())))
 		if v.Clo != nil && v.T != nil {
 			st.Clos[v.T] = v.Clo
@@ -244,6 +256,12 @@ func (X *Exec) execUnOp(fr *Frame, i *ssa.UnOp, st *State) {
 	x := X.val(fr, i.X)
 	switch i.Op {
 	case token.MUL:
+		if x.A != nil && x.A.Kind == AddrCell && len(x.A.Path) == 0 {
+			if a, ok := st.CellAddr[x.A.Cell]; ok {
+				fr.Regs[i] = &Val{A: a, GT: i.Type()}
+				return
+			}
+		}
 		addr := X.addrOf(fr, st, x, i.Pos(), "load "+i.X.Name())
 		X.checkGuarded(fr, st, addr, false, i.Pos())
 		t := X.load(st, addr)
